@@ -77,7 +77,7 @@ def theorem_names(path):
     src = strip_comments(open(path).read())
     ns = re.search(r"^namespace\s+(\S+)", src, flags=re.M)
     pre = ns.group(1) + "." if ns else ""
-    return [pre + m.group(1) for m in re.finditer(r"^\s*theorem\s+([A-Za-z_][\w'.]*)", src, flags=re.M)]
+    return [pre + m.group(1) for m in re.finditer(r"^\s*theorem\s+([A-Za-z_][\w'.?!]*)", src, flags=re.M)]
 
 
 def forbidden_tokens(paths):
@@ -151,9 +151,10 @@ def load_known(prop):
     return [k for k in json.load(open(p)).get("findings", []) if k["property"] == prop]
 
 
-def match_known(known, op, impl):
+def match_known(known, op, impl, model=""):
     for k in known:
-        if re.search(k["match_op"], op) and ("match_impl" not in k or re.search(k["match_impl"], impl)):
+        if re.search(k["match_op"], op) and ("match_impl" not in k or re.search(k["match_impl"], impl)) \
+                and ("match_model" not in k or re.search(k["match_model"], model)):
             return k
     return None
 
@@ -211,6 +212,7 @@ def run_correspondence(cfg, tier, seed, replay_ops=None, harness_args=None):
     try:
         ops_path = os.path.join(tmp, "ops.tsv")
         env = dict(GOENV, VERIF_SCRATCH=tmp, **cfg.get("harness_env", {}))
+        env.update(cfg.get("tier_env", {}).get(tier, {}))
         with open(ops_path, "w") as fh:
             if replay_ops is None:
                 corpus = sorted(glob.glob(os.path.join(VERIF, "corpus", cfg["prop"], "*.ops")))
@@ -336,13 +338,14 @@ def standard_check(cfg, tier, seed, replay=None):
     R.coverage["rule"] = cfg.get("rule", "op lines generated by harness/%s.go from seed; distinct = distinct (op, output) pairs" % prop.lower())
     R.coverage["distribution"] = dict(sorted(dist.items()))
     R.coverage["samples"] = [{"op": o, "impl": i} for o, i in (lines[:3] + lines[len(lines) // 2: len(lines) // 2 + 3])]
-    R.coverage["correspondence_disagreements"] = len(diffs)
     floor = cfg.get("min_ops", {}).get(tier, 1)
     if replay is None and len(lines) < floor:
         raise RuntimeError("broken harness: only %d ops generated (floor %d)" % (len(lines), floor))
     classify = cfg.get("classify")  # optional: re-judge a difference for THIS property
     if classify:
         diffs = [(i, op, impl, model, classify(op, impl, model, v)) for (i, op, impl, model, v) in diffs]
+        diffs = [d for d in diffs if d[4] is not None]
+    R.coverage["correspondence_disagreements"] = len(diffs)
     post = cfg.get("post")  # optional extra property-level analysis hook
     if post:
         post(R, lines, diffs)
@@ -352,7 +355,7 @@ def standard_check(cfg, tier, seed, replay=None):
     fails = [d for d in diffs if d[4] == "fail"]
     others = [d for d in diffs if d[4] != "fail"]
     for (i, op, impl, model, verdict) in fails:
-        k = match_known(known, op, impl)
+        k = match_known(known, op, impl, model)
         if k:
             if k["id"] not in seen_known:
                 seen_known.add(k["id"])
